@@ -149,7 +149,32 @@ pub fn run_schedule(ctx: &mut Ctx, bytes: &[u8], precomputed: &BTreeMap<(usize, 
     let mut host = AnalysisHost::new();
     let (ws0, _, _) = precomputed.get(&(v * 2 + edge as usize, shape.0, shape.1)).expect("precomputed");
     host.apply_change(make_change(ws0));
-    let mut logs: Vec<std::thread::JoinHandle<ReaderLog>> = vec![];
+    // Reader threads live for the whole schedule and are handed one snapshot per step: state that
+    // a cancelled query leaves behind on its thread meets the queries that thread runs later.
+    struct Job {
+        an: Analysis,
+        ve: usize,
+        plan: Vec<(u32, u32, Q)>,
+        start: usize,
+        stop: Arc<AtomicBool>,
+        ye: usize,
+    }
+    let pool: Vec<(std::sync::mpsc::Sender<Job>, std::sync::mpsc::Receiver<ReaderLog>)> = (0..4)
+        .map(|_| {
+            let (tx, rx) = std::sync::mpsc::channel::<Job>();
+            let (ltx, lrx) = std::sync::mpsc::channel::<ReaderLog>();
+            std::thread::spawn(move || {
+                while let Ok(j) = rx.recv() {
+                    let log = reader(j.an, j.ve, j.plan, j.start, j.stop, j.ye);
+                    if ltx.send(log).is_err() {
+                        break;
+                    }
+                }
+            });
+            (tx, lrx)
+        })
+        .collect();
+    let mut logs: Vec<ReaderLog> = vec![];
     let mut cancelled_seen = false;
     let mut answers_seen = false;
     let mut apply_ms = vec![];
@@ -161,14 +186,15 @@ pub fn run_schedule(ctx: &mut Ctx, bytes: &[u8], precomputed: &BTreeMap<(usize, 
         // hand snapshots of the current state to readers
         let stop = Arc::new(AtomicBool::new(false));
         let n_readers = 1 + c.below(4);
-        let mut handles = vec![];
-        for _ in 0..n_readers {
+        for r in 0..n_readers {
             let an = host.snapshot();
             let plan = plan.clone();
             let start = c.below(plan.len());
             let stop2 = stop.clone();
             let ye = c.below(4);
-            handles.push(std::thread::spawn(move || reader(an, ve, plan, start, stop2, ye)));
+            if pool[r].0.send(Job { an, ve, plan, start, stop: stop2, ye }).is_err() {
+                return Err(Failure::new("a reader thread died outside a query", case).sig("kind", "reader-died"));
+            }
         }
         // let the readers get going for a stream-chosen moment
         match c.below(5) {
@@ -199,7 +225,14 @@ pub fn run_schedule(ctx: &mut Ctx, bytes: &[u8], precomputed: &BTreeMap<(usize, 
         }
         // only now may readers stop on their own
         stop.store(true, Ordering::SeqCst);
-        logs.extend(handles);
+        // the step is over when every reader of it has handed in its log (each stops on Cancelled
+        // or, now that the flag is up, after its next query)
+        for r in 0..n_readers {
+            match pool[r].1.recv() {
+                Ok(l) => logs.push(l),
+                Err(_) => return Err(Failure::new("a reader thread panicked outside a query", case).sig("kind", "reader-died")),
+            }
+        }
     }
     let n_versions = 12;
     // final: a snapshot taken after the last change answers for the last version
@@ -221,11 +254,7 @@ pub fn run_schedule(ctx: &mut Ctx, bytes: &[u8], precomputed: &BTreeMap<(usize, 
         }
     }
     drop(an);
-    for h in logs {
-        let log = match h.join() {
-            Ok(l) => l,
-            Err(_) => return Err(Failure::new("a reader thread panicked outside a query", case).sig("kind", "reader-died")),
-        };
+    for log in logs {
         let (_, _, want) = precomputed.get(&(log.version, shape.0, shape.1)).unwrap();
         for (k, out) in &log.results {
             ctx.eval();
@@ -297,7 +326,7 @@ impl Property for C12 {
         "C12"
     }
     fn rule(&self) -> String {
-        "cases: proptest-generated schedules (the stream chooses workspace size 13/31/51 files or (one schedule in eight) 3 files of 1500 lines each, where the workspace-wide queries run for 100+ ms, 2-5 versions, 1-4 reader threads per version, where each reader starts in its query plan, its yield frequency, and how long the writer waits before applying the next version): one writer thread owns the AnalysisHost and applies version v+1 (every file changes; names and literal types embed v) while real OS reader threads loop over ~60 queries through every entry point of the analysis (workspace-wide references/rename, hover, goto, highlight, completion, signature help, prepare-rename, semantic tokens for the file and for a range, diagnostics, syntax tree) on snapshots of version v. Readers may only stop after they observe Cancelled or after apply_change has returned, so apply_change can only return by cancelling them. Oracle: every reader result is Cancelled or exactly the single-threaded precomputed answer of its snapshot's own version (never another version's, never a truncated set, never a panic); apply_change returns (in-worker watchdog 45 s, confirmed by replay); a snapshot taken after the last change answers for the last version. evaluations = reader query results checked. Non-trivial = schedule in which >= 1 reader was cancelled mid-flight and >= 1 reader completed an answer; distinct by schedule hash.".into()
+        "cases: proptest-generated schedules (the stream chooses workspace size 13/31/51 files or (one schedule in eight) 3 files of 1500 lines each, where the workspace-wide queries run for 100+ ms, 2-5 versions, 1-4 reader threads per version, where each reader starts in its query plan, its yield frequency, and how long the writer waits before applying the next version): one writer thread owns the AnalysisHost and applies version v+1 (every file changes; names and literal types embed v) while real OS reader threads (four long-lived ones, handed a fresh snapshot per step, so that whatever a cancelled query leaves on its thread meets later queries) loop over ~60 queries through every entry point of the analysis (workspace-wide references/rename, hover, goto, highlight, completion, signature help, prepare-rename, semantic tokens for the file and for a range, diagnostics, syntax tree) on snapshots of version v. Readers may only stop after they observe Cancelled or after apply_change has returned, so apply_change can only return by cancelling them. Oracle: every reader result is Cancelled or exactly the single-threaded precomputed answer of its snapshot's own version (never another version's, never a truncated set, never a panic); apply_change returns (in-worker watchdog 45 s, confirmed by replay); a snapshot taken after the last change answers for the last version. evaluations = reader query results checked. Non-trivial = schedule in which >= 1 reader was cancelled mid-flight and >= 1 reader completed an answer; distinct by schedule hash.".into()
     }
     fn assumptions(&self) -> Vec<String> {
         vec![
